@@ -15,7 +15,12 @@ PolyOk(e) == /\ e.out = "ok" /\ e.inputsame /\ Len(e.res) = Len(cs.rings)
 MultiOk(e) == /\ e.out = "ok" /\ e.inputsame /\ Len(e.res) = Len(cs.lines)
               /\ \A m \in 1..Len(cs.lines) : /\ SimplifyOK(cs.lines[m], cs.tol2, e.res[m], FALSE)
                                              /\ e.res[m] = e.solo[m]        \* members are simplified independently
+MPolyOk(e) == /\ e.out = "ok" /\ e.inputsame /\ Len(e.res) = Len(cs.polys)
+              /\ \A m \in 1..Len(cs.polys) : /\ Len(e.res[m]) = Len(cs.polys[m])
+                                             /\ \A r \in 1..Len(cs.polys[m]) : SimplifyOK(cs.polys[m][r], cs.tol2, e.res[m][r], TRUE)
+                                             /\ e.res[m] = e.solo[m]       \* members are simplified independently
 Ok(e) == e.ev = "simplify" /\ CASE cs.kind = "line" -> LineOk(e)
+                                [] cs.kind = "mpoly" -> MPolyOk(e)
                                 [] cs.kind = "poly" -> PolyOk(e)
                                 [] cs.kind = "multi" -> MultiOk(e)
                                 [] OTHER -> FALSE
